@@ -19,7 +19,7 @@ ASSUMPTIONS = ["float class: same function judged to relative 1e-9 on well-condi
 def gen_case(rng, idx, tier):
     want_zero = rng.random() < 0.25
     deep = tier == "thorough" and rng.random() < 0.25
-    cur = gen.curve(rng, itv=(F(-1), F(1)) if want_zero else None, want_zero=False if want_zero else None, pmax=6 if deep else 4, nintmax=6 if deep else 4)
+    cur = gen.curve(rng, itv=(F(-1), F(1)) if want_zero else None, want_zero=False if want_zero else None, pmax=6 if deep else 4, nintmax=6 if deep else 4, magnitudes=True)
     U = cur["U"]
     p = ref.degree(U)
     ks = ref.distinct(U)
